@@ -10,6 +10,18 @@ BASELINE_OFF = ("cd /repo && env -u CNES_PANDORA_VERIF /venv/bin/python -m pytes
 
 # id -> (technique, level text, level note, design ref)
 CLAIMED = {
+    "C19": (
+        "Round trip through the command-line entry: in-memory products -> written rasters -> read back; saved configuration -> replay (differential)",
+        "Exploration: generated accepted configurations on harness-written GeoTIFFs (pipelines with/without "
+        "validation, filling, confidence steps, invalid_disparity -9999 / NaN, integer interval or grid files, with or "
+        "without CRS/transform) run through pandora.main in-process with a wrapper capturing the datasets handed to "
+        "save_results; each written raster is read back and compared value for value (dtype, NaN, band names, "
+        "georeferencing, right_* iff validation); cfg/config.json is loaded, compared with check_conf's completed "
+        "configuration plus the machine's margins, fed back to pandora.main and must reproduce identical rasters.",
+        "Trusted: rasterio read/write; check_conf on a fresh machine as the definition of 'completed configuration'. "
+        "The undocumented 'indicator' key of confidence steps is not compared.",
+        "DESIGN.md §5 C19",
+    ),
     "C16": (
         "Hypothesis-generated GeoTIFFs read through create_dataset_from_inputs vs. a direct restatement (round trip file -> dataset); exhaustive ROI table vs. isel crop (differential)",
         "Exploration with an exhaustive sub-space: generated rasters (1-3 named bands, six dtypes, nodata present / "
